@@ -5,7 +5,7 @@
    MAX_* frames it sent), bytes it received per stream, final sizes it learned, streams its application opened and
    bytes its application consumed. *)
 EXTENDS Naturals, FiniteSets, Sequences, TLC
-CONSTANTS MaxStreamId, KnownF5
+CONSTANTS MaxStreamId, KnownF5, KnownF16
 Ep == {"c", "s"}
 Sids == 0..MaxStreamId
 None == 0 - 1
